@@ -101,6 +101,7 @@ fn race_body(r: &Race) -> Result<(), String> {
             let t2 = tx.clone();
             for h in [tx, t2] {
                 droppers.push(std::thread::spawn(move || {
+                    e1::inproc_point();
                     let s = CLOCK.fetch_add(1, Ordering::SeqCst);
                     drop(h);
                     s
@@ -113,7 +114,9 @@ fn race_body(r: &Race) -> Result<(), String> {
             let t2 = tx.clone();
             expect_msgs = 1;
             droppers.push(std::thread::spawn(move || {
+                e1::inproc_point();
                 let _ = tx.send(77);
+                e1::inproc_point();
                 let s = CLOCK.fetch_add(1, Ordering::SeqCst);
                 drop(tx);
                 s
@@ -148,7 +151,9 @@ fn race_body(r: &Race) -> Result<(), String> {
             expect_msgs = 1;
             droppers.push(std::thread::spawn(move || {
                 let h = crx.recv().expect("carrier recv");
+                e1::inproc_point();
                 let _ = h.send(78);
+                e1::inproc_point();
                 let s = CLOCK.fetch_add(1, Ordering::SeqCst);
                 drop(h);
                 drop(crx);
@@ -163,6 +168,7 @@ fn race_body(r: &Race) -> Result<(), String> {
     }
     let mut got = 0;
     let disc_stamp;
+    e1::inproc_point();
     loop {
         let res: Result<u32, TryRecvError> = match r.rcv {
             Rcv::Blocking => rx.recv().map_err(TryRecvError::IpcError),
@@ -216,7 +222,10 @@ pub fn scenarios(tier: Tier) -> Vec<Scenario> {
             let r = Race { shape, rcv };
             let name = format!("{:?}", r);
             let bound = if tier.is_quick() { 3 } else { 4 };
-            v.push(Scenario::new(name, sched_cfg(), bound, move || race_body(&r)));
+            let mut cfg = sched_cfg();
+            // (a polling receiver never parks: nothing to gain from letting it keep the processor)
+            cfg.yield_alts = cfg!(feature = "inproc") && rcv != Rcv::Polling;
+            v.push(Scenario::new(name, cfg, bound, move || race_body(&r)));
         }
     }
     v
@@ -226,8 +235,11 @@ fn path_body(nchan: usize) -> impl Fn(&Vec<Op>) -> Result<(), String> {
     move |p: &Vec<Op>| run_path(nchan, p, false)
 }
 
-pub fn run(tier: Tier, _part: bool) -> i32 {
-    let mut rep = Report::new("C03", tier, "model_checking");
+pub fn run(tier: Tier, part_only: bool) -> i32 {
+    super::run_with_inproc("C03", tier, part_only, "model_checking", &run_all)
+}
+
+fn run_all(rep: &mut Report, tier: Tier) {
     // (1) model BFS + conformance replay of every transition, for two bound sets
     let graphs: Vec<(usize, usize, usize)> = if tier.is_quick() { vec![(3, 4, 20000), (2, 7, 4000)] } else { vec![(3, 6, 80000), (4, 5, 60000), (2, 12, 20000)] };
     let mut n = 0u64;
@@ -237,7 +249,8 @@ pub fn run(tier: Tier, _part: bool) -> i32 {
     let mut bounds = Vec::new();
     let cfg = Cfg::default();
     for (nchan, depth, maxstates) in graphs {
-        let g = bfs(nchan, depth, 2, 4, true, maxstates);
+        // (in-process channels do not cross fork(): no move-to-process operations in that build)
+        let g = bfs(nchan, depth, 2, 4, !cfg!(feature = "inproc"), maxstates);
         let mut fails = Vec::new();
         sweep_batched(&g.paths, 32, 120.0, &cfg, &path_body(nchan), &mut |_, p, r| {
             n += 1;
@@ -268,7 +281,7 @@ pub fn run(tier: Tier, _part: bool) -> i32 {
     let g = G { states: states as usize, paths: vec![(); transitions as usize], closed: all_closed };
     // (2) races
     let scs = scenarios(tier);
-    let tot = e1::run_scenarios(&mut rep, &scs, &e1::strict_judge, if tier.is_quick() { 25.0 } else { 2000.0 });
+    let tot = e1::run_scenarios(rep, &scs, &e1::strict_judge, if tier.is_quick() { 25.0 } else { 2000.0 });
     // model_checking keys: states/transitions of both parts
     let st = rep.coverage.get("states").and_then(|v| v.as_u64()).unwrap_or(0);
     let tr = rep.coverage.get("transitions").and_then(|v| v.as_u64()).unwrap_or(0);
@@ -288,10 +301,10 @@ pub fn run(tier: Tier, _part: bool) -> i32 {
     rep.set("rule", json!("model part: BFS over the reference model's state graph (operations clone / drop / send / embed sender / embed receiver / receive x3 variants / drop receiver / move to thread / move to forked process), canonical-state dedup; every transition is replayed from scratch on the real API as (shortest path to its source state + the operation) and every result compared; after the last operation every held receiver for which the model predicts Empty/Disconnected is probed. E1 part: one evaluation = one schedule of droppers racing a blocked/timed/polling receiver"));
     rep.assume("canonical form merges handles of the same channel in the same state (they are interchangeable) and ignores payload tags");
     rep.assume("channel families are acyclic (an endpoint only travels over a lower-numbered channel); the quantifier's 6 channels are not reached (3 quick / 4 thorough)");
-    rep.finish()
 }
 
 pub fn replay(tier: Tier, v: &Value) -> i32 {
+    let v = if v.get("variant").is_some() { &v["case"] } else { v };
     if v["engine"] == "model-path" {
         let nchan = v["nchan"].as_u64().unwrap_or(3) as usize;
         let Ok(p) = serde_json::from_value::<Vec<Op>>(v["path"].clone()) else { return 2 };
